@@ -222,6 +222,9 @@ class Path(object):
             s2.add(*self.pc)
             if ncond is not True:
                 s2.add(ncond)
+            if os.environ.get('PYVC_DUMP_UNKNOWN'):
+                with open(os.path.join(os.environ['PYVC_DUMP_UNKNOWN'], '%s.%s.smt2' % (name[-60:].replace('/', '_'), self.pathid)), 'w') as fh:
+                    fh.write(s2.to_smt2())
             r2 = cvc5_check(s2.to_smt2().replace('(check-sat)', ''))
             backend = 'cvc5'
             if r2 == 'unsat':
